@@ -551,10 +551,30 @@ def rule_forward(fx, rep):
         sq = bm.expr(t["args"][1], expand_named=True, at=bb)
         if sq_kind(sq) != "to":
             continue
-        pc = deep_strip(bm.expr(t["args"][2], expand_named=True, at=bb))
-        cond = gh.edit_condition(bm, bb)
-        key = "promo" if ("promo", True) in cond else ("plain" if ("promo", False) in cond else "?")
-        placed[key] = pc
+        # the placed value may be chosen by a preceding match: look at every definition reaching the call
+        op = t["args"][2]
+        cands = []
+        l = op["pl"]["l"] if "pl" in op and not op["pl"].get("p") else None
+        seen_l = set()
+        while l is not None and l not in seen_l:
+            seen_l.add(l)
+            ds = bm.reaching_defs(l, bb)
+            if len(ds) == 1 and ds[0][0] == "stmt" and ds[0][3]["rv"]["k"] == "use" and "pl" in ds[0][3]["rv"]["op"] and not ds[0][3]["rv"]["op"]["pl"].get("p") \
+                    and len(bm.defs().get(ds[0][3]["rv"]["op"]["pl"]["l"], [])) > 1:
+                l = ds[0][3]["rv"]["op"]["pl"]["l"]
+                continue
+            if len(ds) > 1:
+                for d in ds:
+                    if d[0] == "stmt" and d[3]["rv"]["k"] == "use":
+                        cands.append((deep_strip(bm.expr(d[3]["rv"]["op"], expand_named=True, at=d[1])), gh.edit_condition(bm, d[1])))
+                    elif d[0] == "call":
+                        cands.append((deep_strip(("call", norm(callee_name(d[2]) or ""), tuple(bm.expr(a, expand_named=True, at=d[1]) for a in d[2]["args"]))), gh.edit_condition(bm, d[1])))
+            break
+        if not cands:
+            cands = [(deep_strip(bm.expr(op, expand_named=True, at=bb)), gh.edit_condition(bm, bb))]
+        for pc, cond in cands:
+            key = "promo" if ("promo", True) in cond else ("plain" if ("promo", False) in cond else "?")
+            placed[key] = pc
     pp, pl = placed.get("promo"), placed.get("plain")
     good = isinstance(pp, tuple) and pp[0] == "call" and pp[1].endswith("Piece::new") and is_mover(pp[2][0]) and bool(find_calls(pp[2][1], "PromotionPieceKind::piece")) and \
         bool(find_calls(pp[2][1], "Move::promotion")) and isinstance(pl, tuple) and pl[0] == "call" and pl[1].endswith("Game::remove_at") and sq_kind(pl[2][1]) == "from"
@@ -605,6 +625,9 @@ MUTANTS = [
      "edits": [(G, "            if en_passant_can_happen {\n                Some(from.forward(player))\n            } else {\n                None\n            }", "            let _ = en_passant_can_happen;\n            Some(from.forward(player))")]},
     {"name": "promotion places a pawn of the promoted kind's colour swapped", "expect": "C02-FORWARD/placement",
      "edits": [(G, "            let promoted_piece = Piece::new(player, promoted_to.piece());", "            let promoted_piece = Piece::new(other_player, promoted_to.piece());")]},
+    {"name": "benign: placed piece chosen by a match, single set_at", "benign": True,
+     "edits": [(G, "        if let Some(promoted_to) = mv.promotion() {\n            let promoted_piece = Piece::new(player, promoted_to.piece());\n            self.set_at(to, promoted_piece);\n        } else {\n            self.set_at(to, moved_piece);\n        }",
+                "        let placed_piece = match mv.promotion() {\n            Some(promoted_to) => Piece::new(player, promoted_to.piece()),\n            None => moved_piece,\n        };\n\n        self.set_at(to, placed_piece);")]},
     {"name": "clock not reset on pawn moves", "expect": "C02-FORWARD/clock",
      "edits": [(G, "            maybe_captured_piece.is_some() || moved_piece.kind == PieceKind::Pawn;", "            maybe_captured_piece.is_some() || moved_piece.kind == PieceKind::King;")]},
     {"name": "undo_move forgets halfmove_clock", "expect": "C02-",
